@@ -171,7 +171,8 @@ Definition check_case (c : ccase) : list N :=
    11 a parsed response is not exactly one of result / resource / error
    12 the response is not of the class the handler's outcome calls for
    13 the decoded result / resource id / error is not what the handler supplied
-   14 a value re-parsed from its own MarshalJSON is not Equal to itself *)
+   14 a value re-parsed from its own MarshalJSON is not Equal to itself
+   15 the error object in the published payload is not the handler's error field for field (code, message, data) *)
 Definition okv (o : outcome value) : option value := match o with Ok x => Some x | _ => None end.
 Definition oclass_eqb (a : option rclass) (b : rclass) : bool :=
   match a with Some x => rclass_eqb x b | None => false end.
@@ -227,7 +228,20 @@ Definition viol_case (c : ccase) : list N :=
         | Some e => operror_eqb (r_error r) (Some (PEDecoded e))
         | None => true
         end
-     then [] else [13])
+     then [] else [13]) ++
+    (* the error object on the wire, as encoding/json reads the payload back, field for field *)
+    (match supplied_error h with
+     | Some e =>
+       if match v with
+          | VObj ms =>
+            match find (fun mm => beq (fst (fst mm)) [101;114;114;111;114]) ms with
+            | Some mm => json_eqb (snd mm) (err_ast e)
+            | None => false
+            end
+          | _ => false
+          end then [] else [15]
+     | None => []
+     end)
   | CRespU text v g => if exactly_one (gp_has g) then [] else [11]
   end.
 
